@@ -105,7 +105,7 @@ def run_child(fn, prefix: str, target: str = "", mode: int = LOG, fail_k: int = 
 class Stepper:
     """One forked writer process in STEP mode: it blocks before every visible operation on `target`."""
 
-    def __init__(self, fn, prefix: str, target: str, timeout: float = 30.0, logdir: str = "/dev/shm"):
+    def __init__(self, fn, prefix: str, target: str, timeout: float = 30.0, logdir: str = "/dev/shm", fine: bool = False):
         L = lib()
         lf = tempfile.NamedTemporaryFile(prefix="vt-steplog-", dir=logdir, delete=False)
         self.logpath = lf.name
@@ -121,7 +121,7 @@ class Stepper:
                 os.close(self.rfd); os.close(self.ctl_r); os.close(self.go_w)
                 signal.alarm(int(timeout) + 5)
                 logfd = os.open(self.logpath, os.O_WRONLY | os.O_APPEND)
-                L.fsshim_configure(prefix.encode(), target.encode(), STEP | LOG, -1, 0, -1, 0, -1, logfd, ctl_w, go_r)
+                L.fsshim_configure(prefix.encode(), target.encode(), STEP | LOG | (64 if fine else 0), -1, 0, -1, 0, -1, logfd, ctl_w, go_r)
                 try:
                     res = fn()
                     payload = json.dumps({"result": res}, default=repr)
